@@ -34,6 +34,9 @@ def gen(rng) -> dict:
     points = [point_str(i, start_min) for i in range(ncyc)]
     expirers = rng.sample(names, rng.randint(1, min(3, ntasks)))
     offs = {n: rng.choice(sorted(OFFSETS)) for n in expirers}
+    # success of a clock-expire task may be optional (n?) or required: a
+    # required one that fails stays in the pool, finished but incomplete
+    succ_opt = {n: rng.random() < 0.5 for n in expirers}
     # arrows: list of (lhs_atoms, op, rhs); atom = (task, offset_minutes,
     # output)
     arrows = []
@@ -65,16 +68,16 @@ def gen(rng) -> dict:
                 s += f'[-PT{-off}M]'
             if o == 'expired':
                 s += ':expire?'
-            elif o == 'succeeded' and t in expirers:
+            elif o == 'succeeded' and t in expirers and succ_opt[t]:
                 s += '?'
             parts.append(s)
-        rr = rhs + ('?' if rhs in expirers else '')
+        rr = rhs + ('?' if rhs in expirers and succ_opt[rhs] else '')
         lines.append(f'{" & ".join(parts)} => {rr}')
         rhs_seen.add(rhs)
     for n in names:
         if n in expirers:
             lines.append(f'{n}:expire?')
-            lines.append(f'{n}?')
+            lines.append(f'{n}?' if succ_opt[n] else n)
         elif n not in rhs_seen:
             lines.append(n)
     queues = {}
@@ -113,6 +116,7 @@ def gen(rng) -> dict:
     return {
         'names': names, 'tasks': tasks, 'points': points,
         'expire_offset': {n: OFFSETS[o] for n, o in offs.items()},
+        'succ_required': sorted(n for n in expirers if not succ_opt[n]),
         'expire_children': children, 'queues': queues, 'sections': [],
         'arrows': [[[list(a) for a in lhs], rhs] for lhs, op, rhs in arrows],
         'initial': points[0], 'final': points[-1], 'runahead': runahead,
